@@ -351,6 +351,137 @@ def translate_tree(fn, side, exc_names):
 
 
 # ----------------------------------------------------------------------------------------------
+# dispatch trees by exploration (fallback when the source is not of the recognised shape)
+# ----------------------------------------------------------------------------------------------
+
+PROBED = []       # dispatchers whose tree was obtained by exploration instead of from the syntax
+
+
+class _Leaf(Exception):
+    pass
+
+
+class _Need(Exception):
+    pass
+
+
+class _Opaque:
+    """stands in for the bit array: it can only be handed on (to get_int / from_bitarray)"""
+
+
+def probe_decode_tree(M, cls, exc_names):
+    """Explore `cls.from_bitarray` exhaustively: `get_int` (as imported by pyais.messages) answers from
+    a script and asks for a branch when the script is exhausted; the layouts' `from_bitarray` reports
+    which class was chosen.  Complete for dispatchers that look at the payload through get_int only
+    (anything else touches the opaque stand-in and fails).  Returns a Lean `Tree` term."""
+    fn = cls.__dict__['from_bitarray'].__func__
+    real_get_int, real_from = M.get_int, M.Payload.__dict__['from_bitarray']
+
+    def run(script):
+        idx = [0]
+
+        def fake_get_int(data, lo, hi, signed=False):
+            if not isinstance(data, _Opaque) or signed:
+                raise TreeError('get_int called on something else than the payload / signed')
+            i = idx[0]
+            idx[0] += 1
+            if i < len(script):
+                if script[i][:2] != (lo, hi):
+                    raise TreeError('non-deterministic read order')
+                return script[i][2]
+            raise _Need((lo, hi))
+
+        def fake_from(c, bit_arr):
+            raise _Leaf(c.__name__)
+
+        M.get_int = fake_get_int
+        M.Payload.from_bitarray = classmethod(fake_from)
+        try:
+            fn(cls, _Opaque())
+            raise TreeError('dispatcher returned without choosing a layout')
+        except _Leaf as l:
+            return '(.leaf %s)' % lean_str(str(l))
+        except _Need as n:
+            lo, hi = n.args[0]
+            w = hi - lo
+            if not (1 <= w <= 4):
+                raise TreeError('discriminator of %d bits' % w)
+            br = {v: run(script + [(lo, hi, v)]) for v in range(1 << w)}
+            if w == 1:
+                return '(.ite (.bits %d %d) %s %s)' % (lo, hi, br[1], br[0])
+            other = br[(1 << w) - 1]
+            t = other
+            for v in reversed(range(1 << w)):
+                if br[v] != other:
+                    t = '(.ite (.bitsEq %d %d %s) %s %s)' % (lo, hi, lean_int(v), br[v], t)
+            return t
+        except TreeError:
+            raise
+        except Exception as e:  # noqa
+            n = type(e).__name__
+            if n in exc_names:
+                return '(.raise %s)' % exc_names[n]
+            raise TreeError('dispatcher raised %s' % n)
+        finally:
+            M.get_int = real_get_int
+            M.Payload.from_bitarray = real_from
+
+    return run([])
+
+
+def probe_create_tree(M, cls, keys, exc_names):
+    """Explore `cls.create(**kwargs)` over the discriminator keywords `keys` = [(name, width)] (the
+    fields that sit at the bit positions the decode side looks at): each absent, or one of the values
+    of its width.  One-bit keywords are read as truth values, wider ones as `int(kwargs.get(k, d))`
+    (the default d is the value that behaves like absence)."""
+    fn = cls.__dict__['create'].__func__
+    real_create = M.Payload.__dict__['create']
+
+    def outcome(kw):
+        def fake_create(c, **kwargs):
+            raise _Leaf(c.__name__)
+        M.Payload.create = classmethod(fake_create)
+        try:
+            fn(cls, **kw)
+            raise TreeError('create returned without choosing a layout')
+        except _Leaf as l:
+            return '(.leaf %s)' % lean_str(str(l))
+        except TreeError:
+            raise
+        except Exception as e:  # noqa
+            n = type(e).__name__
+            if n in exc_names:
+                return '(.raise %s)' % exc_names[n]
+            raise TreeError('create raised %s' % n)
+        finally:
+            M.Payload.create = real_create
+
+    def build(rest, kw):
+        if not rest:
+            return outcome(kw)
+        (k, w), tail = rest[0], rest[1:]
+        absent = build(tail, kw)
+        if w == 1:
+            t1, t0 = build(tail, dict(kw, **{k: True})), build(tail, dict(kw, **{k: False}))
+            if absent != t0 or build(tail, dict(kw, **{k: 1})) != t1 or build(tail, dict(kw, **{k: 0})) != t0:
+                raise TreeError('keyword %s is not read as a truth value with a false default' % k)
+            return t0 if t0 == t1 else '(.ite (.kw %s) %s %s)' % (lean_str(k), t1, t0)
+        br = {v: build(tail, dict(kw, **{k: v})) for v in range(1 << w)}
+        ds = [v for v in range(1 << w) if br[v] == absent]
+        if not ds:
+            raise TreeError('absence of keyword %s behaves like none of its values' % k)
+        d = ds[0]
+        other = br[(1 << w) - 1]
+        t = other
+        for v in reversed(range(1 << w)):
+            if br[v] != other:
+                t = '(.ite (.kwIntEq %s %s %s) %s %s)' % (lean_str(k), lean_int(d), lean_int(v), br[v], t)
+        return t
+
+    return build(list(keys), {})
+
+
+# ----------------------------------------------------------------------------------------------
 # constants buried in function bodies
 # ----------------------------------------------------------------------------------------------
 
@@ -362,6 +493,32 @@ def find_in_source(path, predicate):
         if r is not None:
             res.append(r)
     return res
+
+
+def discriminator_keys(M, name, dec_trees):
+    """[(keyword, width)] for the create side of dispatcher `name`: the fields of its layouts that sit
+    at the bit ranges its decode tree reads"""
+    import re
+    import attr
+    tree = dict(dec_trees).get(name)
+    if tree is None:
+        raise TreeError('no decode tree to take the discriminator fields from')
+    reads = sorted(set((int(a), int(b)) for a, b in re.findall(r'\.bits(?:Eq)? (\d+) (\d+)', tree)))
+    leaves = sorted(set(re.findall(r'\.leaf "([A-Za-z0-9_]+)"', tree)))
+    keys = []
+    for lo, hi in reads:
+        names = set()
+        for leaf in leaves:
+            off = 0
+            for f in attr.fields(getattr(M, leaf)):
+                w = f.metadata['width']
+                if off == lo and off + w == hi:
+                    names.add(f.name)
+                off += w
+        if len(names) != 1:
+            raise TreeError('bits %d..%d are not one field of the layouts' % (lo, hi))
+        keys.append((names.pop(), hi - lo))
+    return keys
 
 
 def main():
@@ -415,10 +572,20 @@ def main():
                 continue
             fn = fn.__func__ if isinstance(fn, (classmethod, staticmethod)) else fn
             try:
+                if os.environ.get('VERIF_FORCE_EXPLORE'):
+                    raise TreeError('forced')
                 t = translate_tree(fn, side, exc_names)
             except (TreeError, OSError, SyntaxError, IndexError, AttributeError) as e:
-                untrans('%s.%s: %s' % (name, attrname, e))
-                continue
+                # not of the recognised syntactic shape: explore the function instead
+                try:
+                    if side == 'decode':
+                        t = probe_decode_tree(M, cls, exc_names)
+                    else:
+                        t = probe_create_tree(M, cls, discriminator_keys(M, name, dec_trees), exc_names)
+                    PROBED.append('%s.%s (%s)' % (name, attrname, e))
+                except Exception as e2:  # noqa
+                    untrans('%s.%s: %s; exploration: %s' % (name, attrname, e, e2))
+                    continue
             out.append((name, t))
             # leaves are classes of the messages module
             for leaf in sorted(set(__import__('re').findall(r'\.leaf "([A-Za-z0-9_]+)"', t))):
@@ -699,7 +866,7 @@ def main():
                 f.write(src)
             os.replace(p + '.tmp', p)
             changed.append(fname)
-    print(json.dumps({'changed': changed, 'untranslatable': UNTRANSLATABLE,
+    print(json.dumps({'changed': changed, 'untranslatable': UNTRANSLATABLE, 'explored': PROBED,
                       'classes': len(class_defs), 'conv_tables': {k: len(v) for k, v in CONV_TABLES.items()}}))
 
 
